@@ -41,8 +41,8 @@ package election
 //@   ensures  fresh(result) && len(result) <= len(el.getFrameRoots(frame))
 //@   ensures  forall(r RootAndSlot, inRL(result, len(result), r) == seenL(el, root, el.getFrameRoots(frame), len(el.getFrameRoots(frame)), r))
 //@   loop 1 modifies observedRoots[*]
-//@   loop 1 invariant arrof(observedRoots) == arrof(atentry(observedRoots)) || arrof(observedRoots) >= _loopalloc
-//@   loop 1 invariant 0 <= _k && _k <= len(_range) && len(observedRoots) <= _k && arrof(observedRoots) >= old(_alloc) && arrof(_range) < old(_alloc)
+//@   loop 1 invariant arrof(observedRoots) == arrof(atentry(observedRoots)) || arrfresh(observedRoots, _loopalloc)
+//@   loop 1 invariant 0 <= _k && _k <= len(_range) && len(observedRoots) <= _k && arrfresh(observedRoots, old(_alloc)) && !arrfresh(_range, old(_alloc))
 //@   loop 1 invariant forall(r RootAndSlot, inRL(observedRoots, len(observedRoots), r) == seenL(el, root, _range, _k, r))
 //@   loop 1 hint assert len(observedRoots) >= len(iterold(observedRoots)) && forall(j, 0, len(iterold(observedRoots)), observedRoots[j] == iterold(observedRoots)[j])
 //@   loop 1 hint use inRL_ext(observedRoots, iterold(observedRoots), len(iterold(observedRoots)))
@@ -69,8 +69,8 @@ package election
 //@   requires elinv(el)
 //@   ensures  fresh(result) && forall(v idx.ValidatorID, inVL(result, len(result), v) == (inVL(el.validators.cache.ids, len(el.validators.cache.ids), v) && !has(el.decidedRoots, v)))
 //@   loop 1 modifies notDecidedRoots[*]
-//@   loop 1 invariant arrof(notDecidedRoots) == arrof(atentry(notDecidedRoots)) || arrof(notDecidedRoots) >= _loopalloc
-//@   loop 1 invariant 0 <= _k && _k <= len(_range) && len(notDecidedRoots) <= _k && arrof(notDecidedRoots) >= old(_alloc) && _range == old(el.validators.cache.ids) && old(arrof(el.validators.cache.ids)) < old(_alloc)
+//@   loop 1 invariant arrof(notDecidedRoots) == arrof(atentry(notDecidedRoots)) || arrfresh(notDecidedRoots, _loopalloc)
+//@   loop 1 invariant 0 <= _k && _k <= len(_range) && len(notDecidedRoots) <= _k && arrfresh(notDecidedRoots, old(_alloc)) && _range == old(el.validators.cache.ids) && !old(arrfresh(el.validators.cache.ids, _alloc))
 //@   loop 1 invariant forall(v idx.ValidatorID, inVL(notDecidedRoots, len(notDecidedRoots), v) == (inVL(_range, _k, v) && !has(el.decidedRoots, v)))
 //@   loop 1 hint assert len(notDecidedRoots) >= len(iterold(notDecidedRoots)) && forall(j, 0, len(iterold(notDecidedRoots)), notDecidedRoots[j] == iterold(notDecidedRoots)[j])
 //@   loop 1 hint use inVL_ext(notDecidedRoots, iterold(notDecidedRoots), len(iterold(notDecidedRoots)))
